@@ -572,11 +572,19 @@ func genClassic(r *gen.Rand) ccase {
 func classicCorpus() []ccase {
 	mk := func(name string, v ...float64) ccase {
 		var bs []cb
+		seen := map[float64]bool{}
 		for i := 0; i+1 < len(v); i += 2 {
 			le := lit(v[i])
 			if math.IsInf(v[i], 1) {
 				le = "+Inf"
 			}
+			if seen[v[i]] { // a duplicate bound needs another spelling of the le label
+				le = strconv.FormatFloat(v[i], 'e', -1, 64)
+				if math.IsInf(v[i], 1) {
+					le = "Inf"
+				}
+			}
+			seen[v[i]] = true
 			bs = append(bs, cb{le: le, ub: v[i], c: v[i+1]})
 		}
 		return ccase{bs: bs, corpus: name}
